@@ -9,7 +9,7 @@ WT=/tmp/seed-$P; OUT=/tmp/seed-$P-out/$M; DST=/verif/seeded/$P-$M
 [ -f $OUT/patch.diff ] || { echo "no patch"; exit 2; }
 mkdir -p $DST; cp $OUT/* $DST/ 2>/dev/null
 git -C $WT checkout -q -- . && git -C $WT clean -fdq
-DEMO=$(ls $OUT/demo*_test.go $OUT/demo* 2>/dev/null | head -1); PKG=$(grep -m1 -o 'nsqd/\|nsqlookupd/\|nsqadmin/\|apps/[a-z_]*/\|internal/[a-z_]*/' $OUT/patch.diff | head -1)
+DEMO=$(ls $OUT/demo*_test.go 2>/dev/null | head -1); [ -n "$DEMO" ] || DEMO=$(ls $OUT/demo* | head -1); PKG=$(grep -m1 -o 'nsqd/\|nsqlookupd/\|nsqadmin/\|apps/[a-z_]*/\|internal/[a-z_]*/' $OUT/patch.diff | head -1)
 PKG=${PKG:-nsqd/}
 # the demonstration may live in another package than the patched file: follow its package clause
 case "$(grep -m1 '^package ' $DEMO | awk '{print $2}')" in
